@@ -16,7 +16,7 @@ LEVEL = 'exploration'
 TITLE = 'Structured Append sequences reassemble to the original message'
 RULE = ('content families {digits, alphanumeric, latin-1 text, bytes, kanji text, mixed-width text, int, UTF-8-only text} x ALL lengths '
         '1..16 x capacity + 2 for version 1 (each level, boost on/off for L) and lengths around every multiple of the per-symbol capacity '
-        'for larger versions; symbol_count 1..16 x lengths 1..64 and lengths that fill k symbols of each version exactly (+-2); each symbol decoded, header/parity/payload/count/version contracts checked. '
+        'for larger versions; symbol_count 1..16 x lengths 1..64 (incl. length == count), two-class contents (digits+letters etc.) whose chunks fall into different modes, and lengths that fill k symbols of each version exactly (+-2); each symbol decoded, header/parity/payload/count/version contracts checked. '
         'non-trivial = a sequence was returned and every symbol decoded')
 BOUNDS = {'quick': 'version 1 all lengths; version 2 around multiples; symbol_count 1..16 x lengths 1..64',
           'thorough': 'versions 1-3 all lengths; 10, 27, 40 around multiples of the capacity; symbol_count x lengths 1..400'}
@@ -94,6 +94,8 @@ def gen_cases(tier):
         for v in (range(1, 7) if q else range(1, 41)):
             yield ('cntbnd', fam, v)
     yield ('misc',)
+    for sc in (2, 3, 4):
+        yield ('hetero', sc)
 
 
 def check_seq(content, kw, acc, fam):
@@ -107,6 +109,16 @@ def check_seq(content, kw, acc, fam):
     except ValueError as e:
         acc.eval(case, nontrivial=False, outcome='refused:' + C.exc_name(e))
         acc.count('refused')
+        # "symbol_count=k alone yields exactly k symbols": a refusal is only justified if the message has fewer than k characters
+        # or a chunk cannot fit the largest version
+        sc = kw.get('symbol_count')
+        if sc is not None and kw.get('version') is None and 1 <= sc <= 16 and exp is not None and fam in FAM_MODE:
+            mode = FAM_MODE[fam]
+            units = len(exp) // (2 if mode == 'kanji' else 1)
+            lvl = kw.get('error') or 'L'
+            if units >= sc and -(-units // sc) <= C.max_count('byte', 40, lvl, extra_bits=20) // 2:
+                acc.violation('refused-feasible/symbol_count', 'make_sequence(<%s, %d characters>, **%r) refused (%s) although the message can be '
+                              'divided into %d symbols' % (fam, units, kw, str(e)[:60], sc), case)
         return
     except Exception as e:
         acc.eval(case, nontrivial=False, outcome='exc:' + C.exc_name(e))
@@ -252,6 +264,14 @@ def run_case(case, acc):
                 for kw in ({'version': 1, 'encoding': 'utf-8'}, {'symbol_count': 3, 'encoding': 'utf-8'}, {'version': 2, 'encoding': 'shift_jis'},
                            {'symbol_count': 2, 'version': 5}, {'version': 1, 'mask': 3}, {'symbol_count': 4, 'error': 'H', 'boost_error': False}):
                     check_seq(content_of(fam, n), kw, acc, fam)
+    elif kind == 'hetero':
+        sc = case[1]
+        for a, b in (('7', 'a'), ('a', '7'), ('A', 'b'), ('7', 'A'), ('K', '7'), ('x', 'Z')):
+            for na in (5, 20, 40, 77):
+                for nb in (5, 21, 39, 78):
+                    for lvl in ('L', 'H'):
+                        check_seq(a * na + b * nb, {'symbol_count': sc, 'error': lvl}, acc, 'hetero')
+                        check_seq(a * na + b * nb, {'symbol_count': sc, 'error': lvl, 'boost_error': False}, acc, 'hetero')
     elif kind == 'one':
         _, fam, content, kw = case
         if isinstance(content, tuple) and content and content[0] == 'int':
